@@ -195,4 +195,5 @@ def run(ctx, V):
 
 
 def replay(ctx, V, path):
-    print(json.dumps(json.load(open(path)), indent=1)[:6000]); return 0
+    import C06
+    return C06.replay(ctx, V, path)
